@@ -338,17 +338,19 @@ impl Worker {
 //@props C34 C35
 //@refarg remove_relaxed insert_relaxed
     async fn on_want_to_prune(&mut self, height: u64) -> (granted: bool)
-        requires old(self).inv(), height >= 1
+        // (also called while disconnected, when the queue has been reset: the queue invariant is not assumed)
+        requires old(self).wf(), height >= 1
         ensures
-            final(self).inv(),
+            final(self).wf(), old(self).inv() ==> final(self).inv(),
             // never while the block is being sampled
             granted == !old(self).ongoing@.contains(height as int),
             granted ==> final(self).will_be_pruned@ == old(self).will_be_pruned@.insert(height as int) && !final(self).queue@.contains(height as int),
             !granted ==> final(self).queue@ == old(self).queue@ && final(self).will_be_pruned@ == old(self).will_be_pruned@,
             final(self).ongoing == old(self).ongoing, final(self).timed_out == old(self).timed_out, final(self).sampling_futs == old(self).sampling_futs,
             final(self).known_stored == old(self).known_stored, final(self).known_sampled == old(self).known_sampled, final(self).log == old(self).log,
+            final(self).concurrency_limit == old(self).concurrency_limit, final(self).additional_headersub_concurency == old(self).additional_headersub_concurency,
 //@hint before "true" last
-        proof { broadcast use vstd::iset::group_iset_lemmas; assert(self.queue@ =~= candidates(*self)); }
+        proof { broadcast use vstd::iset::group_iset_lemmas; if old(self).inv() { assert(self.queue@ =~= candidates(*self)); } assert(self.will_be_pruned@ =~= old(self).will_be_pruned@.insert(height as int)); }
 //@end
 
 //@fn impl<S> Worker<S> :: update_queue
